@@ -944,6 +944,35 @@ def _random_table():
 
 _random_table()
 
+# ---- same object passed twice; empty operands -------------------------------------------------------------
+def _degenerate_table():
+    import operator as op
+    for cls, mk in (("tensor", "T"), ("sptensor", "S"), ("ktensor", "K")):
+        reg(cls, "__add__", "same-object-twice", X(mk), lambda o: o.X + o.X)
+        reg(cls, "__sub__", "same-object-twice", X(mk), lambda o: o.X - o.X)
+    reg("tensor", "__mul__", "same-object-twice", X("T"), lambda o: o.X * o.X)
+    reg("sptensor", "__mul__", "same-object-twice", X("S"), lambda o: o.X * o.X)
+    reg("tensor", "ttt", "same-object-twice", X("T"), lambda o: o.X.ttt(o.X))
+    reg("tensor", "logical_and", "same-object-twice", X("T"), lambda o: o.X.logical_and(o.X))
+    reg("sptensor", "logical_or", "same-object-twice", X("S"), lambda o: o.X.logical_or(o.X))
+    reg("tenmat", "__add__", "same-object-twice", X("TM"), lambda o: o.X + o.X)
+    empty = lambda b: b.ttb.sptensor(shape=b.shape)
+    for nm, f in (("__add__", op.add), ("__sub__", op.sub), ("__mul__", op.mul)):
+        reg("sptensor", nm, "empty-other", lambda b: dict(X=b.S(), Y=empty(b)), lambda o, f=f: f(o.X, o.Y))
+        reg("sptensor", nm, "empty-receiver", lambda b: dict(X=empty(b), Y=b.S()), lambda o, f=f: f(o.X, o.Y))
+    # (logical_and/or/xor with an empty sptensor raise ValueError in pyttb itself: not a C05 matter, not listed)
+    reg("sptensor", "permute", "empty,reverse", lambda b: dict(X=empty(b), order=np.arange(b.N)[::-1].copy()), lambda o: o.X.permute(o.order), kind="scalar")
+    reg("sptensor", "copy", "empty", lambda b: dict(X=empty(b)), lambda o: o.X.copy(), kind="scalar")
+    reg("sptensor", "full", "empty", lambda b: dict(X=empty(b)), lambda o: o.X.full(), kind="scalar")
+    reg("sptensor", "__pos__", "empty", lambda b: dict(X=empty(b)), lambda o: +o.X, kind="scalar")
+    reg("sptensor", "ttv", "empty,single", lambda b: dict(X=empty(b), v=b.vec(0)), lambda o: o.X.ttv(o.v, 0), kind="scalar")
+    reg("sptensor", "squeeze", "empty", lambda b: dict(X=empty(b)), lambda o: o.X.squeeze(), kind="scalar")
+    reg("tensor", "to_sptensor", "all-zero", lambda b: dict(X=b.ttb.tenzeros(b.shape)), lambda o: o.X.to_sptensor())
+    reg("sumtensor", "__init__", "copy=True,empty", lambda b: dict(), lambda o, b: b.ttb.sumtensor(), kind="scalar", shapes=CUBE)
+
+
+_degenerate_table()
+
 #TABLE-SECTIONS
 
 
